@@ -10,8 +10,9 @@ On success writes /verif/seeded/<id>/{patch.diff, demo.rs, meta.json}.
 """
 import json, os, re, shutil, subprocess, sys, time
 prop, mut, crate, sid, needs = sys.argv[1:6]
-WT = "/tmp/mut/%s" % prop
-SRC = "/tmp/mut/out/%s/%s" % (prop, mut)
+BASE = os.environ.get("MUT_BASE", "/tmp/mut")
+WT = "%s/%s" % (BASE, prop)
+SRC = "%s/out/%s/%s" % (BASE, prop, mut)
 VERIF = os.path.dirname(os.path.dirname(os.path.abspath(__file__)))
 env = dict(os.environ, CARGO_TARGET_DIR=WT + "/target", CARGO_NET_OFFLINE="true")
 
@@ -32,6 +33,7 @@ def step(name, rc, out, expect_ok):
     return ok
 
 clean()
+os.makedirs(os.path.join(WT, crate, "tests"), exist_ok=True)
 demo_dst = os.path.join(WT, crate, "tests", "seeded_demo.rs")
 shutil.copy(os.path.join(SRC, "demo.rs"), demo_dst)
 demo_cmd = ["cargo", "test", "-p", crate, "--offline", "--test", "seeded_demo"]
@@ -42,7 +44,7 @@ rc, out = sh(["git", "apply", os.path.join(SRC, "patch.diff")]); ok &= step("git
 rc, out = sh(["cargo", "build", "--workspace", "--offline"]); ok &= step("cargo build --workspace with patch", rc, out, True)
 rc, out = sh(demo_cmd); ok &= step("demo with patch (must fail)", rc, out, False)
 os.remove(demo_dst)
-iso = "/tmp/mut/run_isolated.sh"
+iso = BASE + "/run_isolated.sh"
 suite_cmd = ([iso, prop] if os.path.exists(iso) else []) + ["cargo", "test", "--workspace", "--offline", "--no-fail-fast"]
 rc, out = sh(suite_cmd)
 failed = sorted(set(re.findall(r"^test (\S+) \.\.\. FAILED", out, flags=re.M)))
